@@ -13,7 +13,7 @@ namespace etl {
 /// number representation and converts them to an integer value.
 [[nodiscard]] constexpr auto atoi(char const* str) noexcept -> int
 {
-    auto const result = strings::to_integer<int>(str);
+    auto const result = strings::to_integer<int, strings::to_integer_c_options>(str);
     return result.value;
 }
 
